@@ -923,7 +923,7 @@ func TestVerifC28(t *testing.T) {
 		}
 	}()
 	verifutil.Main(t, &verifutil.Harness{
-		ID: "C28", Exec: verifC28Exec, Gen: verifC28Gen, Quick: 1800, Thorough: 24000,
+		ID: "C28", Exec: verifC28Exec, Gen: verifC28Gen, Quick: 1800, Thorough: 10000,
 		Class: func(op, impl string) string {
 			f := strings.Fields(op)
 			a := strings.Fields(impl)
